@@ -202,6 +202,11 @@ def generate(prop, rng, run, tier):
             out = d + "/newdir/out" + ext
         else:
             bak = "/Pack/NoSuchDir/deep/backup" + ext
+    if bak and bak not in (inp, out) and (norm(bak) == norm(inp) or (out and norm(bak) == norm(out))):
+        # the backup name spells the input or output file differently (left over when the
+        # output name it was copied from was replaced above): the library compares names, not
+        # files, so such a backup legitimately overwrites that file - outside the domain
+        bak = None
     # the edit script; values from the repertoire of the encoding the file will be
     # detected in (so that the run stays a C05 run) unless a spoil is planned
     n_ops = rng.randint(0, 6)
